@@ -9,8 +9,8 @@ git -C /repo worktree add -q --detach $WT HEAD || exit 2
 for id in $IDS; do
   d=seeded/$id
   [ -f $d/patch.diff ] || continue
-  if ! git -C $WT apply $d/patch.diff 2>/dev/null; then
-    if ! git -C $WT apply -3 $d/patch.diff 2>/dev/null; then echo "$id: patch does not apply to HEAD"; git -C $WT checkout -q . ; continue; fi
+  if ! git -C $WT apply /verif/$d/patch.diff 2>/dev/null; then
+    if ! git -C $WT apply -3 /verif/$d/patch.diff 2>/dev/null; then echo "$id: patch does not apply to HEAD"; git -C $WT checkout -q . ; continue; fi
   fi
   prop=${id%%-*}
   checks=$(python3 - $d/meta.json $prop <<'EOF'
